@@ -55,6 +55,7 @@ type report struct {
 	Spawns          []string          `json:"goroutines_and_timers_of_the_library_scheduled"`
 	AtomicPoints    int               `json:"atomic_operations_with_scheduling_point"`
 	CtxDerived      []string          `json:"context_derivations_in_library_not_modelled"`
+	CtxModelled     []string          `json:"context_derivations_in_library_simulated"`
 	LibrarySpawns   bool              `json:"library_starts_goroutines_or_timers"`
 }
 
@@ -641,7 +642,12 @@ func (r *rewriter) run() bool {
 			}
 			if !r.driver && r.isPkg(sel.X, "context") {
 				switch sel.Sel.Name {
-				case "WithTimeout", "WithDeadline", "WithCancel", "AfterFunc", "WithTimeoutCause", "WithDeadlineCause", "WithCancelCause":
+				case "WithTimeout", "WithDeadline", "WithCancel":
+					// contexts derived inside the library stay on the simulated clock
+					r.rep.CtxModelled = append(r.rep.CtxModelled, r.site(n.Pos(), curFn)+" context."+sel.Sel.Name)
+					n.Fun = simSel("Lib" + sel.Sel.Name)
+					r.needSim, changed = true, true
+				case "AfterFunc", "WithTimeoutCause", "WithDeadlineCause", "WithCancelCause", "WithoutCancel":
 					r.rep.CtxDerived = append(r.rep.CtxDerived, r.site(n.Pos(), curFn)+" context."+sel.Sel.Name)
 				}
 			}
